@@ -282,9 +282,14 @@ func TestSim(t *testing.T) {
 				// a scenario that is not a function of its tape by executing the run twice more.
 				// (four more executions: a reproducible run shows one and the same trace in at least four of the six; on a
 				// heavily oversubscribed machine two deviations in a row have been seen, three of six never)
+				// (later: on a machine oversubscribed four times over - sub-agents, three lanes of seeded changes, a
+				// sensitivity run and a thorough run at once - three deviating executions out of six were seen once in 50 000
+				// re-checks; the deviations come in bursts, so the worker now lets 50 ms of real time pass first and looks at
+				// ten executions, of which at least seven must agree)
+				time.Sleep(50 * time.Millisecond)
 				tally := map[uint64]int{res.TraceHash: 1}
 				tally[res2.TraceHash]++
-				for k := 0; k < 4; k++ {
+				for k := 0; k < 8; k++ {
 					tally[execute(t, scn, ReplayTape(res.Tape), false).TraceHash]++
 				}
 				most := 0
@@ -293,8 +298,8 @@ func TestSim(t *testing.T) {
 						most = n
 					}
 				}
-				if most >= 4 {
-					out.Transient += int64(6 - most)
+				if most >= 7 {
+					out.Transient++ // (events, not executions)
 				} else {
 					out.Nondet++
 				}
